@@ -25,6 +25,12 @@ import cases  # noqa: E402
 
 def apply_edits(root, edits):
     for e in edits:
+        if "patch" in e:
+            r = subprocess.run(["patch", "-p1", "-s", "-d", root, "-i", os.path.join(VERIF, e["patch"])],
+                               stdout=subprocess.PIPE, stderr=subprocess.STDOUT, text=True)
+            if r.returncode != 0:
+                raise RuntimeError("stale case: patch %s does not apply: %s" % (e["patch"], r.stdout[-300:]))
+            continue
         p = os.path.join(root, e["file"])
         s = open(p).read()
         n = s.count(e["find"])
